@@ -63,6 +63,5 @@ def run(prop, tier):
 
 
 def replay(prop, obj, path):
-    print("scenario %s\nschedule %s\nhistory %s" % (json.dumps(obj["scenario"]), obj["schedule"], json.dumps(obj.get("history"))[:3000]))
-    print("VIOLATION property=%s replay=%s" % (prop, path))
-    return 1
+    import engine_conc
+    return engine_conc.replay(prop, obj, path)
